@@ -146,6 +146,39 @@ fn main() {{
     }}
 }}
 """, True, "borrow"))
+    # ... and a lookup key never has to live as long as the result it found (no method ties its key
+    # parameter to the guard's lifetime): every borrow handed out is kept after the key is gone
+    progs.append(("lookup_results_outlive_lookup_keys", """use flurry::*;
+#[allow(unused_variables, unused_must_use)]
+fn main() {
+    let map: HashMap<String, u32> = HashMap::new();
+    let set: HashSet<String> = HashSet::new();
+    let g = map.guard();
+    let sg = set.guard();
+    let p = map.pin();
+    let w = map.with_guard(&g);
+    let sp = set.pin();
+    let sw = set.with_guard(&sg);
+    let mut vals: Vec<Option<&u32>> = Vec::new();
+    let mut keys: Vec<Option<&String>> = Vec::new();
+    let mut kvs: Vec<Option<(&String, &u32)>> = Vec::new();
+    {
+        let local = String::from("a");
+        let q: &str = &local[..];
+        vals.push(map.get(q, &g)); kvs.push(map.get_key_value(q, &g));
+        vals.push(map.compute_if_present(q, |_, v| Some(*v), &g));
+        kvs.push(map.remove_entry(q, &g)); vals.push(map.remove(q, &g));
+        keys.push(set.get(q, &sg)); keys.push(set.take(q, &sg));
+        vals.push(p.get(q)); kvs.push(p.get_key_value(q));
+        vals.push(p.compute_if_present(q, |_, v| Some(*v)));
+        kvs.push(p.remove_entry(q)); vals.push(p.remove(q));
+        vals.push(w.get(q)); kvs.push(w.get_key_value(q)); kvs.push(w.remove_entry(q)); vals.push(w.remove(q));
+        keys.push(sp.get(q)); keys.push(sp.take(q));
+        keys.push(sw.get(q)); keys.push(sw.take(q));
+    }
+    drop((vals, keys, kvs));
+}
+""", True, "borrow"))
     return progs, missing
 
 
